@@ -12,7 +12,7 @@ def claim(pid, text, note, technique, design_ref, category=LEVEL_OTHER):
 PROOF_PLUS_BOUNDED = ('contract-based deductive verification of the real functions (pyvc: VCs generated from /repo source every run, '
                       'discharged by z3) + the same contracts evaluated at run time as bounded stand-in')
 TB = ('trusted: z3, our VC generator pyvc and its encoding of Python (DESIGN 2.2, 6, 11); value-mode callers do not check the heap preconditions of '
-      'SCFG._sync_exiting (proved separately in heap mode); tier-B functions (loop_restructure_helper, restructure_loop/branch, extract_region, '
+      'SCFG._sync_exiting (proved separately in heap mode); tier-B functions (loop_restructure_helper, restructure_loop/branch, extract_region below the top level, '
       'scc, _imm_doms, SCFGIO, ast_transforms, rendering) are checked only within the stated bounds')
 
 claim('C01', 'Mixed: the arc-preservation facts of the edit primitives (insert_block, SyntheticBranch.replace_jump_targets, jump_targets) are proved for all '
@@ -28,10 +28,14 @@ claim('C03', 'Bounded at property level: structured(H) (acyclic per level withou
       TB, 'property-level contract checked on the enumerated scope; supporting function contracts proved by pyvc/z3', '5.C03')
 claim('C04', 'Mixed: key/frame invariants of the edit primitives proved (value mode); SCFG._sync_exiting proved in heap mode for every nesting depth (every sub-graph keeps its keys, '
       'only jump targets and the value tables that follow them change, the exiting block of the argument is re-targeted position by position, arity of non-leaf levels kept, no exception), '
-      'update_exiting likewise (recursive: header renamed along the whole exiting chain), and the hierarchy view of insert_block (the exiting block of every region predecessor is re-targeted with it); '
+      'update_exiting likewise (recursive: header renamed along the whole exiting chain), the hierarchy views of insert_block, its four typed wrappers, join_tails_and_exits and '
+      'insert_block_and_control_blocks (the exiting block of every region predecessor / tail is re-targeted with it), and extract_region at the top level (header and exiting inside the region, '
+      'every outside arc enters at the header, the region\'s targets are its exiting block\'s, the sub-graph holds exactly the region\'s blocks, entries that are regions re-targeted down their chain); '
       'WF(H) evaluated after every stage on the enumerated scope and the hierarchy clause at every edit call incl. region predecessors (bounded).',
-      TB + '; for insert_block_and_control_blocks / join_* the call of _sync_exiting on every region predecessor is bounded only (run-time hierarchy clause); extract_region is bounded', PROOF_PLUS_BOUNDED, '5.C04')
-claim('C05', 'Mixed: frames of the edit primitives proved (replace = functional update keeping class tag and every other field; untouched blocks identical); '
+      TB + '; back pointers (parent_region, SCFG.region) are not modelled by the proofs: bounded clause parent-mismatch; allocation of a sub-graph identity assumed fresh (consistency canary on every run); '
+      'join_returns and nested extract_region calls are bounded only', PROOF_PLUS_BOUNDED, '5.C04')
+claim('C05', 'Mixed: frames of the edit primitives proved (replace = functional update keeping class tag and every other field; untouched blocks identical); extract_region at the top level proved '
+      '(the sub-graph holds exactly the region\'s blocks, each the same value; entries keep arity and order with the header renamed to the region; every other block identical); '
       'conserved(original, result) evaluated after every stage with plain, bytecode and AST payloads (bounded).', TB, PROOF_PLUS_BOUNDED, '5.C05')
 claim('C06', 'Mixed: the table invariant (every entry names a successor, every successor has an entry, keys preserved under position-wise renaming) is proved for '
       'SyntheticBranch.replace_jump_targets; assigned-before-use and in-range are decided per instance on every reachable (block, valuation) of the product '
@@ -73,9 +77,9 @@ claim('C13', 'Mixed, mostly proved: find_head, find_headers_and_entries (top-lev
 claim('C14', 'Mixed, mostly proved: all value-level clauses of insert_block and its four typed wrappers, insert_block_and_control_blocks (each re-routed arc gets its own '
       'assignment block whose constant the new head maps back to the arc\'s original target), join_returns, join_tails_and_exits, add_block, remove_blocks and '
       'SyntheticBranch.replace_jump_targets are discharged for all inputs (exact re-routing, order of remaining successors, positional replacement, frame); '
-      'SCFG._sync_exiting (re-targeting of the exiting chain of a region predecessor) is proved in heap mode for every nesting depth, and so is the hierarchy view of insert_block '
-      '(every region predecessor\'s exiting block is re-targeted with it); for insert_block_and_control_blocks and join_* the hierarchy clause (evaluated at every internal call and on '
-      'generated calls with region predecessors) and edit sequences are bounded.',
+      'SCFG._sync_exiting (re-targeting of the exiting chain of a region predecessor) is proved in heap mode for every nesting depth, and so are the hierarchy views of insert_block, '
+      'its four typed wrappers, insert_block_and_control_blocks and join_tails_and_exits (every region predecessor\'s / tail\'s exiting block is re-targeted with it, position by position; a caller uses the '
+      'callee\'s view, whose extra preconditions become call-site obligations); join_returns\' hierarchy clause and edit sequences are bounded.',
       TB + '; R3 (predecessor with a declared back edge) and R13 are recorded findings, proved on their complement',
       PROOF_PLUS_BOUNDED, '5.C14')
 claim('C15', 'Bounded + finite: registry coverage and a per-class field round trip are decided completely over the block classes (E3); dictionary/YAML round trips and '
@@ -96,7 +100,8 @@ claim('C17', 'Bounded (claimed as such): the DOT source of every enumerated grap
       'finite arm-coverage check (E3) + rendering contract evaluated on the enumerated scope', '5.C17', category='exploration')
 claim('C18', 'Mixed: NameGenerator.new_block_name/new_region_name/new_var_name are proved to return name(kind, counter) and advance exactly that counter; injectivity '
       'of each name shape and pairwise disjointness of the shapes (read from the source) are discharged by cvc5 on strings; histories of requests on a shared generator '
-      'and every name handed out during real pipeline runs are checked exhaustively up to the bounds (bounded).',
+      'and every name handed out during real pipeline runs are checked exhaustively up to the bounds (bounded); extract_region (top level) is proved to take exactly one region name of the '
+      'requested kind and one "meta" name for the new sub-graph from the shared generator, and to store the region under a name that was not a key.',
       TB + '; A-str (str of a non-negative int is an injective digit string) assumed; R11 (input names inside the generator namespace) is a recorded finding',
       PROOF_PLUS_BOUNDED + '; string lemmas by cvc5', '5.C18')
 ALL = ['C%02d' % i for i in range(1, 19)]
